@@ -1,4 +1,100 @@
-(* C05 — placeholder while the theorems are being written *)
-From Cog Require Import Model.Spec05.
-Theorem resolves_nil : resolves [] = true.
-Proof. reflexivity. Qed.
+(* C05 — every reference in the intermediate representation resolves.
+   Statements only; each closed by `exact <lemma>`; Print Assumptions under each.
+   wf_schema2: object keys are the object names, unique, and every object's self reference is
+   (package of its schema, its name) — what every front-end builds.
+   hidden_free: no reference sits inside an enum member type or a hint disjunction (positions no
+   front-end fills with references and the visitor never visits). *)
+From Coq Require Import List String Bool.
+From Cog Require Import Model.IR Model.Passes Model.Filter Model.Process Model.Refs Model.Spec05
+     Proofs.PassLemmas Proofs.C05Proofs.
+Import ListNotations.
+
+Definition hidden_free_ss (ss : schemas) : Prop :=
+  forall s, In s ss -> hidden_free (s_entrytype s) /\
+                       forall ko, In ko (s_objects s) -> hidden_free (o_type (snd ko)).
+
+(* rename_object: for ALL schema sets, parameters (any letter case, absent, colliding target
+   name): every type reference and constant reference, at any depth (arrays, maps incl. index
+   types, struct fields, unions, intersections), and the entry point keep resolving. *)
+Theorem rename_keeps_refs_resolving : forall pkg obj to ss,
+  Forall wf_schema2 ss -> hidden_free_ss ss ->
+  refs_resolve ss -> refs_resolve (rename_object pkg obj to ss).
+Proof. exact rename_keeps_refs_resolving_proof. Qed.
+Print Assumptions rename_keeps_refs_resolving.
+
+Theorem rename_keeps_entries_resolving : forall pkg obj to ss,
+  Forall wf_schema2 ss -> entries_resolve ss -> entries_resolve (rename_object pkg obj to ss).
+Proof. exact rename_keeps_entries_resolving_proof. Qed.
+Print Assumptions rename_keeps_entries_resolving.
+
+(* name prefixing *)
+Theorem prefix_keeps_resolving : forall p ss,
+  Forall wf_schema2 ss -> hidden_free_ss ss -> refs_resolve ss -> entries_resolve ss ->
+  refs_resolve (prefix_object_names p ss) /\ entries_resolve (prefix_object_names p ss).
+Proof. exact prefix_keeps_resolving_proof. Qed.
+Print Assumptions prefix_keeps_resolving.
+
+(* replace_reference towards an existing object *)
+Theorem replace_reference_keeps_resolving : forall fpkg fobj tpkg tobj ss,
+  Forall wf_schema2 ss -> hidden_free_ss ss -> object_exists ss tpkg tobj = true ->
+  refs_resolve ss -> entries_resolve ss ->
+  refs_resolve (replace_reference fpkg fobj tpkg tobj ss) /\
+  entries_resolve (replace_reference fpkg fobj tpkg tobj ss).
+Proof. exact replace_reference_keeps_resolving_proof. Qed.
+Print Assumptions replace_reference_keeps_resolving.
+
+(* duplicate_object (any source, target package, omitted fields; no side condition) *)
+Theorem duplicate_keeps_resolving : forall pkg obj ap ao om ss,
+  refs_resolve ss -> entries_resolve ss ->
+  refs_resolve (duplicate_object pkg obj ap ao om ss) /\ entries_resolve (duplicate_object pkg obj ap ao om ss).
+Proof. exact duplicate_keeps_resolving_proof. Qed.
+Print Assumptions duplicate_keeps_resolving.
+
+(* allowed_objects keeps a subsequence of the objects, each unchanged, nothing else touched *)
+Theorem filter_keeps_subsequence : forall allowed ss ss',
+  filter_schemas allowed ss = Ok ss' ->
+  Forall2 (fun s s' => s_pkg s' = s_pkg s /\ s_meta s' = s_meta s /\ s_entry s' = s_entry s /\
+                       s_entrytype s' = s_entrytype s /\
+                       exists keep, s_objects s' = filter keep (s_objects s)) ss ss'.
+Proof. exact filter_keeps_subsequence_proof. Qed.
+Print Assumptions filter_keeps_subsequence.
+
+(* ---- full statements that the faithful model refutes (open known findings) ---- *)
+Local Open Scope string_scope.
+Definition m0 := {| m_kind := "" ; m_variant := "" ; m_identifier := "" |}.
+
+(* unspec: references to `spec` / `metadata` are not rewritten *)
+Definition unspec_witness : schemas :=
+  [mkSchema "p" m0 "" ty_zero
+     [("spec", mkObject "spec" [] (TStruct A0 [] []) "p" "spec");
+      ("User", mkObject "User" [] (TStruct A0 [] [mkField "s" [] (TRef A0 "p" "spec") true]) "p" "User")]].
+Theorem unspec_keeps_resolving_refuted :
+  resolves unspec_witness = true /\ resolves (unspec unspec_witness) = false.
+Proof. vm_compute. split; reflexivity. Qed.
+Print Assumptions unspec_keeps_resolving_refuted.
+
+(* rename_object: discriminator-mapping targets keep the old name *)
+Definition rename_mapping_witness : schemas :=
+  [mkSchema "p" m0 "" ty_zero
+     [("A", mkObject "A" [] (TStruct A0 [] []) "p" "A");
+      ("B", mkObject "B" [] (TStruct A0 [] []) "p" "B");
+      ("U", mkObject "U" [] (TDisj A0 (mkDisj [TRef A0 "p" "A"; TRef A0 "p" "B"] "kind" [("a", "A"); ("b", "B")])) "p" "U")]].
+Theorem rename_keeps_mappings_refuted :
+  resolves rename_mapping_witness = true /\ resolves (rename_object "p" "A" "Z" rename_mapping_witness) = false.
+Proof. vm_compute. split; reflexivity. Qed.
+Print Assumptions rename_keeps_mappings_refuted.
+
+(* non-vacuity: the hypotheses of the theorems hold of a concrete schema set with references in
+   an array, a map index and a constant reference, and the rename really rewrites them *)
+Definition c05_example : schemas :=
+  [mkSchema "p" m0 "Foo" (TRef A0 "p" "Foo")
+     [("Foo", mkObject "Foo" [] (TStruct A0 [] [mkField "xs" [] (TArray A0 (TRef A0 "p" "Bar")) true;
+                                               mkField "m" [] (TMap A0 (TRef A0 "p" "Bar") (TConstRef A0 "p" "Bar" (DStr "v"))) false]) "p" "Foo");
+      ("Bar", mkObject "Bar" [] (TEnum A0 [mkEnumVal (TScalar A0 KString DNil []) "v" (DStr "v")]) "p" "Bar")]].
+Example c05_nonvacuous :
+  resolves c05_example = true /\
+  resolves (rename_object "p" "bar" "Baz" c05_example) = true /\
+  dangling (rename_object "p" "bar" "Baz" c05_example) = [] /\
+  schema_refs (nth 0 (rename_object "p" "bar" "Baz" c05_example) (mkSchema "" m0 "" ty_zero []))
+  = [("p", "Foo"); ("p", "Baz"); ("p", "Baz"); ("p", "Baz")].
+Proof. vm_compute. repeat split; reflexivity. Qed.
